@@ -151,6 +151,11 @@ class Hist:
         v = Violation(prop=prop, oracle=oracle, disc=disc, msg=str(msg)[:400], op=self.opi, k=self.ev.get('k'))
         self.res.violations.append(v)
         self.ev.setdefault('viol', []).append(v.sig)
+        if 'state' not in self.ev:
+            try:
+                self.ev['state'] = {f'#{s.sid}': s.net.to_bench() for s in self.pop}
+            except Exception:
+                pass
 
     def new_slot(self, real, kin=()):
         net, users = observe.snap(real)
@@ -215,7 +220,7 @@ class Hist:
         self.ev['out'] = 'ok'
         return rv
 
-    def settle(self, touched, with_copy=True):
+    def settle(self, touched, with_copy=True, also=None):
         """After a normal return: re-read touched objects, judge WF (C02), check that
         untouched population members did not move, record the state."""
         bad_slots = []
@@ -232,6 +237,8 @@ class Hist:
             if problems:
                 for code, msg in problems[:3]:
                     self.violate('C02', 'wf', f'{self.ev["k"]}:{code}', msg)
+                    if also:
+                        self.violate(also, 'wf', f'{self.ev["k"]}:{code}', msg)
                 bad_slots.append(s)
             s.net, s.users = net, users
         for s in self.pop:
@@ -1008,7 +1015,7 @@ class Hist:
                 self.res.stats.probes.bump('replace_subcircuit-function-checked')
         if not equivalent:
             self.res.stats.probes.bump('replace_subcircuit-nonequivalent')
-        self.settle([s])
+        self.settle([s], also='C19' if equivalent else None)
 
     def rewrite(self, rng, sub: Net, taken, keep):
         """One function-preserving local rewrite of the model netlist `sub`."""
@@ -1070,7 +1077,7 @@ class Hist:
         self.call(lambda: s.real.into_bench(), [s], valid, f'#{s.sid}.into_bench()')
         now, nusers = observe.snap(s.real)
         self.judge_bench(pre, pre_tt, now, 'into_bench')
-        self.settle([s])
+        self.settle([s], also='C14' if pre.inputs else None)
 
     def judge_bench(self, pre: Net, pre_tt, now: Net, what):
         st = self.res.stats.probes
@@ -1084,8 +1091,12 @@ class Hist:
         if pre_tt is not None:
             try:
                 if now.tt() != pre_tt:
-                    changed = sorted({pre.gates[g][0] for g in pre.gates if g in now.gates and now.gates[g] != pre.gates[g]})
-                    self.violate('C14', 'truth-table', ','.join(changed)[:60], f'truth table changed by {what}')
+                    # culprits: rewritten gates whose own function changed although their operands' did not
+                    lp, _ = pre.all_lanes()
+                    ln, _ = now.all_lanes()
+                    cul = sorted({pre.gates[g][0] for g in pre.gates if g in ln and ln[g] != lp[g]
+                                  and all(ln.get(o) == lp.get(o) for o in pre.gates[g][1])})
+                    self.violate('C14', 'truth-table', ','.join(cul)[:60] or 'unknown', f'truth table changed by {what} (gate types at fault: {cul})')
                 else:
                     st.bump('bench-conversion-function-checked')
             except ModelError as e:
@@ -1119,7 +1130,7 @@ class Hist:
                 inter = a & bb
                 if inter and inter != a and inter != bb:
                     blocks_ok = False
-        self.call(lambda: s.real.into_graphviz_digraph(as_bench=True, draw_blocks=blocks_ok), [s], True,
+        self.call(lambda: s.real.into_graphviz_digraph(as_bench=True, draw_blocks=False), [s], True,
                   f'#{s.sid}.into_graphviz_digraph(as_bench=True)')
         now, nusers = observe.snap(s.real)
         if not observe.same_view(now, s.net) or nusers != s.users:
